@@ -30,6 +30,12 @@ def run(tier, seed):
             else:
                 args += ["--steps", str(rng.choice([60, 120]))]
             jobs.append(("s%d_%s" % (cpus // 2, variant), args))
+    # a device that runs full in the background: writes that could not be allocated wait in their shard;
+    # once deletes have made room they must reach the device without any further call
+    for i in range(4 if tier == "quick" else 16):
+        jobs.append(("squeeze%d" % i, ["--seed", str(rng.randrange(1 << 30)), "--cpus", str([8, 4, 16, 2][i % 4]), "--noflush", "1",
+                                       "--settle", str(SETTLE_MS), "--cc", "0", "--keys", "11", "--blocks", "24", "--ttl", "0",
+                                       "--end", "leak", "--maximages", "30", "--steps", "0", "--squeeze", "1", "--fmt", str([3, 2][i % 2])]))
     viol, st, traces = ce.run_and_validate(PROP, fxv, rd, jobs, INV)
     # ---- retirement while readers come and go: once the last reader has left, one more flush must
     #      return and leave every superseded generation retired and released (RetireSettled)
